@@ -14,3 +14,7 @@ classify = H.classify
 
 def gen_cases(ctx):
     return H.gen_cases(ctx, "C26")
+
+
+def run(ctx):
+    H.run(ctx, "C26")
